@@ -92,7 +92,11 @@ func c01case(c GCase, a *run.Acc) {
 		gd = gram.NewGuard(env.Base)
 		gd.MaxEvents, gd.MaxCalls = 60000, 120000
 		gd.NoAssert = true // the activation bound is C02's business; here results are judged whenever the call returns
-		b = gram.Build(g, &gram.Hooks{Inside: gd.Inside, Outside: gd.Outside, MemoExpr: c.MemoExpr, ShareLeaves: true, ShareExprs: run.Hash(g.String())%4 >= 2,
+		var userAnyOnly map[int]bool
+		if c.Fam == "userlist" {
+			userAnyOnly = map[int]bool{1: true} // the producer only: its consumers are the library's own combinators
+		}
+		b = gram.Build(g, &gram.Hooks{Inside: gd.Inside, Outside: gd.Outside, MemoExpr: c.MemoExpr, ShareLeaves: true, ShareExprs: run.Hash(g.String())%4 >= 2, UserAnyTop: run.Hash(g.String())%5 == 3 || c.Fam == "userlist", UserAnyOnly: userAnyOnly,
 			// the activation bound is claimed for EVERY memoized parser, also the extra wrappers around sub-expressions
 			UnderMemo: func(e *gram.Expr, p parsley.Parser) parsley.Parser { return gd.Inside(1000+e.ID, p) }})
 		c01cache = c01built{g: g, memo: c.MemoExpr, gd: gd, b: b}
@@ -303,6 +307,8 @@ func c01plan(tier string, seed int64) []run.Job {
 		jobs = append(jobs, run.Job{Family: "mutual", Seed: seed*100000 + 50000 + int64(i), N: per, P: map[string]int{"inputs": 6, "maxlen": 10}})
 		// hidden left recursion behind nullable prefixes of every result-list layout (zero-width alternative first / last / repeated)
 		jobs = append(jobs, run.Job{Family: "hidden", Seed: seed*100000 + 55000 + int64(i), N: per / 2, P: map[string]int{"inputs": 6, "maxlen": 9}})
+		// lists built by a hand-written combinator, cached by Memoize and extended by several consumers at one position
+		jobs = append(jobs, run.Job{Family: "userlist", Seed: seed*100000 + 57000 + int64(i), N: per / 8, P: map[string]int{"inputs": 6}})
 	}
 	nlong := 2
 	if tier == "thorough" {
